@@ -353,6 +353,7 @@ class ErrorLog:
         self.ret_mask = None      # mask returned by the wrapped function at the last call
         self.history = []         # compact per-iteration record (max over active rows)
         self.P_judged = None      # per row: the iterate the last convergence decision was taken on
+        self.saw_diis = False     # a DIIS error was handed to get_error at least once
 
     def install(self):
         from seqm.seqm_functions import scf_loop as sl
@@ -420,6 +421,7 @@ class ErrorLog:
         for k, v in (("dE", dE), ("rms", rms), ("max", mx)):
             self.last[k][act] = v[act]
         if di is not None:
+            self.saw_diis = True
             self.last["diis"][act] = di[act]
         self.last["iter"][act] = self.calls
         self.ret_mask = ret_mask
